@@ -391,8 +391,9 @@ def unmarshaledDispatch (s : Server) (request : PyVal) : PyM (Option PyVal) × L
 
 /- ---------- _marshaled_dispatch ---------- -/
 
-/-- Outcome of `jsonrpclib.loads(data, config)`: a Python value (`None` for an empty body), or an
-    exception (malformed JSON, or a payload the class translator rejects). -/
+/-- Outcome of the parse `try` of `_marshaled_dispatch`: the Python value `jsonrpclib.loads(data, config)`
+    returns, or an exception (malformed JSON, a payload the class translator rejects, or — raised by the
+    dispatcher itself before it calls `loads` — an empty body, see `marshaledDispatchBody`). -/
 inductive ParseOutcome where
   | parsed (v : PyVal)
   | parseError
@@ -463,5 +464,13 @@ def marshaledDispatch (s : Server) (po : ParseOutcome) : PyM Reply × List Effec
         match response with
         | .list responses => ((safeJdumpsAll responses).map (fun ds => Reply.doc (.list ds)), eff)
         | r => ((safeJdumps r).map Reply.doc, eff)
+
+/-- `_marshaled_dispatch(data, …)` seen from the body: the first statement of the parse `try` is
+    `if not data: raise ValueError("No request data")` (fix e82f118), so an empty body — `""`, `b""` —
+    takes the handler of a parse failure whatever `loads` would have made of it (`jsonrpclib.loads("")`
+    returns `None`: it is what a client receives in answer to a notification).  `empty` is `not data`,
+    `po` the outcome of `loads` on a non-empty body. -/
+def marshaledDispatchBody (s : Server) (empty : Bool) (po : ParseOutcome) : PyM Reply × List Effect :=
+  marshaledDispatch s (if empty then .parseError else po)
 
 end JRV.Server
